@@ -14,8 +14,8 @@ import (
 	"testing"
 
 	nri "github.com/containerd/nri/pkg/api"
-	"pgregory.net/rapid"
 	v1 "k8s.io/api/core/v1"
+	"pgregory.net/rapid"
 
 	logger "github.com/containers/nri-plugins/pkg/log"
 	"github.com/containers/nri-plugins/pkg/utils/cpuset"
